@@ -486,9 +486,9 @@ def optimizer_keeps_transfers(facts, rep):
                 return False
             return any(o[0] == "call" and o[2] == "graphs::Node::get_annotations"
                        for o in fl.origins(ct["args"][0], (cbb, None)))
-        rem = C.assume_call_results(co, [(is_ann_empty, False)])
         tests = [bb for bb, t in co.calls() if is_ann_empty(callee_name(t), t, bb)]
-        reach = C.reachable(co, [0], removed_edges=rem)
+        res_ = V.executable_under(facts, co, site_values={(co.id, bb): ("b", False) for bb in tests})
+        reach = res_.blocks
         # the Constant arm errors out on annotated constants; the generic arm must not reach evaluate_node
         folds = [bb for bb, t in co.calls() if (callee_name(t) or "").endswith("Evaluator::evaluate_node") and bb in reach
                  and not co.is_cleanup(bb)]
